@@ -728,10 +728,13 @@ func (r *rateLimiter) calculateUpstreamCondition(limitStore _interface.LimitStor
 			if !ok {
 				continue
 			}
+			// a status of another item type than the schema has now (the schema's type was
+			// changed and this instance has not reported since) does not count, and must not
+			// be divided by the missing member of the configuration
 			switch {
-			case status.MaxRequestsInflight != nil:
+			case status.MaxRequestsInflight != nil && flowControlConfig.MaxRequestsInflight != nil:
 				level += float64(status.MaxRequestsInflight.Max) / float64(flowControlConfig.MaxRequestsInflight.Max)
-			case status.TokenBucket != nil:
+			case status.TokenBucket != nil && flowControlConfig.TokenBucket != nil:
 				level += float64(status.TokenBucket.QPS) / float64(flowControlConfig.TokenBucket.QPS)
 			}
 			requestLevelMap[status.Name] = level
